@@ -38,7 +38,7 @@ BASE=""
 echo "demo with change: exit $RW ; without: exit $RWO"
 # suite with the change (demo file removed)
 rm -f $W/with/*/zz_seed_demo_test.go $W/with/*/zz_seed*_test.go
-( cd $W/with && { go test -vet=off -count=1 ./cmem/... ./loghub/... ./memcache/... ./quicklz/... ./utils/... 2>&1; go test -vet=off -count=1 ./store/ -args -base=$W/tb 2>&1; } | grep -E "^(ok|FAIL|---|panic)" > $W/suite.log ); 
+( cd $W/with && { go test -vet=off -count=1 ./cmem/... ./loghub/... ./memcache/... ./quicklz/... ./utils/... 2>&1; go test -vet=off -count=1 -timeout 25m ./store/ -args -base=$W/tb 2>&1; } | grep -E "^(ok|FAIL|---|panic)" > $W/suite.log ); 
 SUITE=$(grep -c "^FAIL\|^--- FAIL\|^panic" $W/suite.log)
 echo "suite with change: $(grep -c '^ok' $W/suite.log) packages ok, $SUITE failures"
 RES=""
